@@ -184,6 +184,9 @@ extern "C" void h_locations(void) {
 // location appears when, and only when, location printing is enabled
 extern "C" void h_locations_each(void) {
    Params p; make_params(p, 1); p.tmpl = 6;
+   // the literal initializer of the local variable (printed before most of the locations) has one byte of each escaping class of the printer
+   static const char8_t classes[] = { u8'4', 0x05, u8'\n', u8'\\', u8'"', 0x7f, 0x01, 0x1b, u8'\t', 0x80 };
+   p.lit[0] = classes[vp_pick(sizeof classes)];
    p.file = 7; p.line = 0; p.col = vp_flag() ? 9 : 0; p.print_locations = vp_flag();
    History h { 0, false, false, true, false };
    Graph* a = new Graph; a->build(p, h);
